@@ -109,6 +109,8 @@ impl tokio_stream::Stream for StrictReq {
         self.pended = false; self.k += 1;
         match self.items.pop_front() { Some(x) => Poll::Ready(Some(x)), None => { self.ended = true; Poll::Ready(None) } }
     }
+    // like an iterator-backed stream, it knows its exact length when it never pends (some code paths look at the hint)
+    fn size_hint(&self) -> (usize, Option<usize>) { if self.pend_before.is_empty() && !self.ended { (self.items.len(), Some(self.items.len())) } else { (0, None) } }
 }
 /// The handler's response stream: every item ready at once, and NOT fused - if it is polled again after it has ended it says so
 /// with an error item (a stream is allowed to do anything then), so that such a poll becomes visible to the caller.
@@ -122,6 +124,8 @@ impl tokio_stream::Stream for StrictStream {
         self.pended = false; self.k += 1;
         match self.items.pop_front() { Some(x) => Poll::Ready(Some(x)), None => { self.ended = true; Poll::Ready(None) } }
     }
+    // like an iterator-backed stream, it knows its exact length when it never pends (some code paths look at the hint)
+    fn size_hint(&self) -> (usize, Option<usize>) { if self.pend_before.is_empty() && !self.ended { (self.items.len(), Some(self.items.len())) } else { (0, None) } }
 }
 fn script_status(end: &Value) -> Status {
     let (meta, _) = build_meta(&end["meta"]);
